@@ -3,7 +3,9 @@
    0 desc   : (0 ctor layers (orig wrapped native_same panicked))   wrapDesc on one descriptor
    1 write  : (1 arrays metrics ops (outs final_arrays))            wrappingMetric.Write over shared label slices
    2 reg    : (2 collectors ops results)                            Register/Unregister through wrappers vs natively declared
-   3 gather : (3 layers fams0 fams1 fams2 unreg_ok n_after)         Gather unwrapped / wrapped / unwrapped again *)
+   3 gather : (3 layers fams0 fams1 fams2 unreg_ok n_after)         Gather unwrapped / wrapped / unwrapped again
+   4 gather-broken : (4 layers ninvalid fams0 fams1 fams2 fams_native (e0 e1 e2 en))
+                                                                    collectors emitting broken metrics in the middle *)
 From Coq Require Import ZArith List Bool.
 From Verif Require Import Base.Str Base.Sx Model.Wrap.
 Import ListNotations.
@@ -269,6 +271,32 @@ Definition check_gather (ly : list layer) (f0 f1 f2 : list fam) (unreg_ok n_afte
   both (list_eqb fam_eqb (map (spec_rename ly) f0) f1 && list_eqb fam_eqb f0 f2 && (unreg_ok =? 1) && (n_after =? 0))
        (list_eqb fam_eqb (map (model_rename ly) f0) f1).
 
+(* ---------- stream 4: gather with broken metrics in the middle ---------- *)
+(* a collected metric whose wrapped descriptor is refused (it already carries an added label) is
+   reported by Gather and dropped, exactly as a natively declared collector reporting that metric
+   as invalid; every other metric is exposed, wherever it comes in the collection order *)
+Definition spec_keeps (ly : list layer) (f : fam) (m : labels * str) : bool :=
+  match spec_wrap (SAccept (f_name f) (f_help f) (fst m) []) ly with SAccept _ _ _ _ => true | _ => false end.
+Definition model_keeps (ly : list layer) (f : fam) (m : labels * str) : bool :=
+  match new_desc (f_name f) (f_help f) (Some []) (fst m) with
+  | WDesc d => match wrap_layers d ly with
+               | WDesc d' => match d_err d' with None => true | Some _ => false end
+               | WPanic => false
+               end
+  | WPanic => false
+  end.
+Definition filter_fams (keep : fam -> labels * str -> bool) (fs : list fam) : list fam :=
+  filter (fun f => negb (is_nil (f_metrics f)))
+         (map (fun f => mkFam (f_name f) (f_help f) (f_type f) (filter (keep f) (f_metrics f))) fs).
+Definition count_metrics (fs : list fam) : nat := fold_left (fun a f => (a + length (f_metrics f))%nat) fs O.
+
+Definition check_gather_broken (ly : list layer) (ninv : Z) (f0 f1 f2 fn : list fam) (e0 e1 e2 en : bool) : Z :=
+  let sf := filter_fams (spec_keeps ly) f0 in
+  let dropped := negb (Nat.eqb (count_metrics sf) (count_metrics f0)) in
+  both (list_eqb fam_eqb (map (spec_rename ly) sf) f1 && list_eqb fam_eqb f1 fn && list_eqb fam_eqb f0 f2 &&
+        Bool.eqb e1 ((0 <? ninv) || dropped) && Bool.eqb e1 en && Bool.eqb e0 (0 <? ninv) && Bool.eqb e2 (0 <? ninv))
+       (list_eqb fam_eqb (map (model_rename ly) (filter_fams (model_keeps ly) f0)) f1).
+
 (* ---------- entry points ---------- *)
 Definition check (s : sx) : Z :=
   match s with
@@ -292,6 +320,12 @@ Definition check (s : sx) : Z :=
       match dL d_layer ly, dL d_fam f0, dL d_fam f1, dL d_fam f2 with
       | Some ly, Some f0, Some f1, Some f2 => check_gather ly f0 f1 f2 u n
       | _, _, _, _ => code_decode_error
+      end
+  | SL [SZ 4; ly; SZ ninv; f0; f1; f2; fn; SL [e0; e1; e2; en]] =>
+      match dL d_layer ly, dL d_fam f0, dL d_fam f1, dL d_fam f2, dL d_fam fn, dB e0, dB e1, dB e2, dB en with
+      | Some ly, Some f0, Some f1, Some f2, Some fn, Some e0, Some e1, Some e2, Some en =>
+          check_gather_broken ly ninv f0 f1 f2 fn e0 e1 e2 en
+      | _, _, _, _, _, _, _, _, _ => code_decode_error
       end
   | _ => code_decode_error
   end.
@@ -335,6 +369,12 @@ Definition explain (s : sx) : sx :=
   | SL [SZ 3; ly; f0; _; _; _; _] =>
       match dL d_layer ly, dL d_fam f0 with
       | Some ly, Some f0 => SL [eL e_fam (map (model_rename ly) f0); eL e_fam (map (spec_rename ly) f0)]
+      | _, _ => SL []
+      end
+  | SL [SZ 4; ly; _; f0; _; _; _; _] =>
+      match dL d_layer ly, dL d_fam f0 with
+      | Some ly, Some f0 => SL [eL e_fam (map (model_rename ly) (filter_fams (model_keeps ly) f0));
+                                eL e_fam (map (spec_rename ly) (filter_fams (spec_keeps ly) f0))]
       | _, _ => SL []
       end
   | _ => SL []
